@@ -74,6 +74,7 @@ def plan_core(pid, profile, level_text, extra_jobs=None, required=WINDOW_PATHS, 
             js.append(core_free(pid + ".free.asan.tp", profile, T(tier, 6, 90), flavour="asan", alloc="real"))
             js.append(core_free(pid + ".free.asan.arc", profile, T(tier, 6, 90), flavour="asan", alloc="real", val="arc"))
         if memcheck:
+            js.append(core_free(pid + ".free.tsan.arc", profile, T(tier, 5, 60), flavour="tsan", alloc="real", val="arc"))
             js.append({"name": pid + ".free.memcheck.arc", "flavour": "memcheck", "args": ["core", "profile=" + profile, "mode=free", "secs=%d" % T(tier, 4, 40), "alloc=real",
                        "val=arc", "threads=4", "ops_lo=100", "ops_hi=300", "stall_s=120"], "shards": T(tier, 2, 8), "threads": 4, "timeout": 900})
             if tier != "quick":
@@ -278,13 +279,19 @@ def plan_c15():
             {"name": "C15.kinds.native", "flavour": "native", "args": ["kinds"], "shards": 1, "threads": 1, "timeout": 300},
             {"name": "C15.kinds.asan", "flavour": "asan", "args": ["kinds"], "shards": 1, "threads": 1, "timeout": 300},
             {"name": "C15.kinds.miri", "flavour": "miri", "args": ["kinds"], "miri_seeds": 1, "timeout": 900},
+            # the weak kind as the stored value of concurrently used containers (null mapping of the dangling Weak, weak counts, targets not kept alive)
+            core_token("C15.weak.token", "c12", T(tier, 1500, 60000), alloc="real", extra=["val=weak"]),
+            core_free("C15.weak.free.asan", "c12", T(tier, 5, 60), flavour="asan", alloc="real", val="weak"),
+            {"name": "C15.weak.miri", "flavour": "miri", "args": ["core", "profile=c12", "mode=free", "alloc=real", "val=weak", "execs=1", "threads=3", "ops_lo=5", "ops_hi=8"],
+             "miri_seeds": T(tier, 4, 64), "timeout": 1500},
         ]
 
     def ev(merged, results):
         c = merged["counters"]
-        runs = len([r for r in results if r["report"]])
-        return {"evaluations": c.get("kinds.cells", 0), "distinct_nontrivial": c.get("kinds.cells", 0) // max(1, runs), "law_checks": c.get("kinds.law_checks", 0),
-                "exhaustive": True, "tools": sorted(set(r["flavour"] for r in results if r["report"]))}
+        runs = len([r for r in results if r["report"] and r["job"].startswith("C15.kinds")])
+        return {"evaluations": c.get("kinds.cells", 0) + merged["execs"] - c.get("kinds.cells", 0), "distinct_nontrivial": c.get("kinds.cells", 0) // max(1, runs), "law_checks": c.get("kinds.law_checks", 0),
+                "grid_cells_per_run": c.get("kinds.cells", 0) // max(1, runs), "exhaustive": True, "weak_container_histories_checked": c.get("histories.linearizable", 0),
+                "tools": sorted(set(r["flavour"] for r in results if r["report"]))}
     return {
         "level": "exploration",
         "jobs": jobs,
@@ -292,7 +299,8 @@ def plan_c15():
                  "{ZST, u8, u64, align(64), String, [u64;33]} x {unique, shared, with weak refs, target dropped, dangling, None, nested empties} with 14 law "
                  "checks each (raw round trip, as_ptr vs into_ptr, inc, dec, null mapping, container round trip), plus address-distinctness and "
                  "weak-container cells; the grid is enumerated completely, natively, under ASan and under Miri. Every cell is non-trivial; "
-                 "distinct_nontrivial = number of distinct cells."),
+                 "distinct_nontrivial = number of distinct cells. In addition the core concurrent workload runs with Weak<_> as the stored value (dangling Weak as the empty "
+                 "value, targets held by a keeper that lets go at the end): histories, ASan / LSan / Miri."),
         "evidence": ev,
         "assumptions": ["'Never dereferenced / never counted' for the empty values is decided by Miri and AddressSanitizer on the same grid."],
         "min_evaluations": {"quick": 100, "thorough": 100},
